@@ -53,8 +53,10 @@ type obsv struct {
 
 var reAddr = regexp.MustCompile(`0x[0-9a-f]{6,}`)
 
-func observe(src string) obsv {
-	r := runner.Run(src, runner.Opts{Fuel: 3_000_000, CaptureStdout: true})
+func observe(src string) obsv { return observeFuel(src, 3_000_000) }
+
+func observeFuel(src string, fuel int64) obsv {
+	r := runner.Run(src, runner.Opts{Fuel: fuel, CaptureStdout: true})
 	o := obsv{Out: r.Out, Kind: r.Kind, Class: r.Class, Msg: r.Msg, Exit: r.ExitCode}
 	if r.Stdout != "" {
 		// what var_dump & co. print bypasses the output writer; it is part of the program's output
